@@ -170,9 +170,9 @@ def semantic_check(pid):
             # failing-input search for the table obligations: the opcode sample whose declared effect deviates
             import extract, re as _re
             rows, _errs = extract.op_rows()
-            spec = {}
+            spec_rows = {}
             for m in _re.finditer(r'\("((?:[^"\\]|\\.)*)", "([^"]*)", "((?:[^"\\]|\\.)*)", (\d+), (\d+), (\d+), (\d+)\)', open(os.path.join(ROOT, 'lean', 'TealerModel', 'Spec', 'OpTable.lean')).read()):
-                spec[m.group(1).replace('\\"', '"').replace('\\\\', '\\')] = (m.group(2), int(m.group(4)), int(m.group(5)), int(m.group(6)), int(m.group(7)))
+                spec_rows[m.group(1).replace('\\"', '"').replace('\\\\', '\\')] = (m.group(2), int(m.group(4)), int(m.group(5)), int(m.group(6)), int(m.group(7)))
             def fam_spec(op, a):
                 n = max(a, 0)
                 return {'dig': (n + 1, n + 2), 'cover': (n + 1, n + 1), 'uncover': (n + 1, n + 1), 'bury': (n + 1, n), 'popn': (n, 0), 'dupn': (1, n + 1),
@@ -191,9 +191,9 @@ def semantic_check(pid):
                     if fam_spec(op, a) != (po, pu):
                         cx.violations.append({'kind': 'stack-effect', 'program': l, 'prop': 'C11', 'field': 'effect', 'where': l,
                                               'detail': f"`{l}` is declared pop {po} / push {pu}; the AVM effect is pop {fam_spec(op, a)[0]} / push {fam_spec(op, a)[1]}", 'src': l, 'env': None})
-                elif l in spec and spec[l] != (cls, po, pu, ver, mode):
+                elif l in spec_rows and spec_rows[l] != (cls, po, pu, ver, mode):
                     cx.violations.append({'kind': 'stack-effect', 'program': l, 'prop': 'C11', 'field': 'effect', 'where': l,
-                                          'detail': f"`{l}` parses to class/pops/pushes/version/mode {(cls, po, pu, ver, mode)}; the specification table has {spec[l]}", 'src': l, 'env': None})
+                                          'detail': f"`{l}` parses to class/pops/pushes/version/mode {(cls, po, pu, ver, mode)}; the specification table has {spec_rows[l]}", 'src': l, 'env': None})
             cx.evaluations += len(rows)
             # the model's operand reconstruction is, by theorem C11_sim_step, the instrumented concrete stack of the
             # block: an instruction whose reconstructed operands differ from it IS a failing input of C11
